@@ -182,6 +182,19 @@ def forced_cases():
     out.append(dict(base, tag="failed_write_strands_waiter", keys=2,
                     ctl=["arm:w_unlocked:0:0", "start:0", "parked:w_unlocked:0", "start:1", "sleep:200", "release:w_unlocked:0", "joinall", "final"],
                     progs=[["e"], ["p1=7", "g1"]]))
+    # systematic family: a three-key batch held at every one of its hook points while a second writer runs to
+    # its head wait (on a key of the batch or on another key), with or without a rollover request in between;
+    # a scan and point reads are taken while both are in flight and again after everything completed
+    points = [("w_unlocked", 0), ("w_logged", 0), ("w_insert", 0), ("w_insert", 1), ("w_insert", 2), ("w_dropped", 0)]
+    for (pt, skip) in points:
+        for other_key in (1, 3):
+            for roll in (False, True):
+                ctl = ["p0=1", "p1=2", "p2=3", "arm:%s:0:%d" % (pt, skip), "start:0", "parked:%s:0" % pt, "start:1", "sleep:30"]
+                if roll:
+                    ctl += ["reqflush", "sleep:30"]
+                ctl += ["s", "g0", "g1", "g2", "g3", "release:%s:0" % pt, "joinall", "final"]
+                out.append(dict(base, tag="sys_%s%d_k%d_%s" % (pt, skip, other_key, "roll" if roll else "noroll"), keys=4, ctl=ctl,
+                                style="systematic", progs=[["b0=100,1=101,2=102"], ["p%d=200" % other_key, "g%d" % other_key]]))
     # empty batch, duplicate keys in a batch (last write wins), delete + put of one key in one batch
     out.append(dict(base, tag="degenerate_batches", keys=3,
                     ctl=["e", "b0=1,0=2,1=3,0=~", "s", "g0", "g1", "b2=5,2=~,2=6", "s", "startall", "joinall", "final"],
